@@ -32,8 +32,12 @@ func (e *kvElection) logWithContext(ctx context.Context) []zap.Field {
 	}
 
 	// Add correlation ID if present in context
-	if correlationID := ctx.Value("correlation_id"); correlationID != nil {
-		fields = append(fields, zap.String("correlation_id", correlationID.(string)))
+	// ctx may be nil: StopWithContext clears the election context, and goroutines
+	// still finishing log with whatever they find there.
+	if ctx != nil {
+		if correlationID := ctx.Value("correlation_id"); correlationID != nil {
+			fields = append(fields, zap.String("correlation_id", correlationID.(string)))
+		}
 	}
 
 	return fields
